@@ -5,6 +5,7 @@ package main
 //                     (+ a real client / in-process server over a pipe for TTLV), oracle: Equal
 //   (b) key_access.go accessor totality on enumerated hand-built and transported objects, compared with the
 //                     Lean model (`key.access`), a panic = C14 violation
+//   (b') key_reuse.go accessor results depend only on the object's present content (object reuse, impl-side oracle)
 //   (c) this file     lexical forms of big integers / byte strings of the real XML / JSON / TTLV writers and
 //                     readers against the model (`key.big`, `key.bigread`, `key.hex`, `key.unhex`)
 
@@ -29,7 +30,7 @@ import (
 func init() {
 	register(&Engine{
 		Name: "key",
-		Rule: "rt: RSA keys (512/1017/1024/2048 bits built from seeded primes; thorough: 768, 3072, 4096, four primes: modulus top byte 0x80/0xFF/0x01, public exponents 3..2^31-1, D with top bit on a byte boundary, missing precomputation, 3 primes; exponents of 2^31 and more = keys the standard library rejects, lenient) and ECDSA keys on P-224/256/384/521 (d=1, d=n-1, leading zero bytes, top bit set, X or Y with a leading zero byte) and byte strings × every builder of kmipclient/register.go × format masks × versions 1.0..1.4 (EC builders also 2.0/2.1, codec path) × {ttlv,xml,json} codec path + ttlv wire path, oracle Equal incl. CRT values and a PEM re-parse; hand-built objects (compressed EC points, opaque secret data) through Register().Object; regsweep: all 256 format masks per kind of key at 1.2 and 1.3, the chosen format must be admissible (a requested format of the kind, else its default: no assumption on priorities), `key.reg` asks the model about the builder IN the chosen format; retain: key material kept from one message of a connection (Get responses and extracted bytes on the client, registered objects on the server) compared again after later exchanges on the same connection; outside: unsupported key types must be refused without panic, rsa keys with fewer than two primes observed; access: formats 0..22,99 × KeyValue shapes × material slot subsets (quick: none/all/single/all-but-one; thorough: all 256) × contents (every standard library blob kind, garbage, all 128 subsets of the optional RSA integers, curve/scalar/point/compression codes), hand-built and after transport in each encoding; lexical: boundary and random big integers and mutated texts; distinct = distinct line",
+		Rule: "rt: RSA keys (512/1017/1024/2048 bits built from seeded primes; thorough: 768, 3072, 4096, four primes: modulus top byte 0x80/0xFF/0x01, public exponents 3..2^31-1, D with top bit on a byte boundary, missing precomputation, 3 primes; exponents of 2^31 and more = keys the standard library rejects, lenient) and ECDSA keys on P-224/256/384/521 (d=1, d=n-1, leading zero bytes, top bit set, X or Y with a leading zero byte) and byte strings × every builder of kmipclient/register.go × format masks × versions 1.0..1.4 (EC builders also 2.0/2.1, codec path) × {ttlv,xml,json} codec path + ttlv wire path, oracle Equal incl. CRT values and a PEM re-parse; hand-built objects (compressed EC points, opaque secret data) through Register().Object; regsweep: all 256 format masks per kind of key at 1.2 and 1.3, the chosen format must be admissible (a requested format of the kind, else its default: no assumption on priorities), `key.reg` asks the model about the builder IN the chosen format; retain: key material kept from one message of a connection (Get responses and extracted bytes on the client, registered objects on the server) compared again after later exchanges on the same connection; outside: unsupported key types must be refused without panic, rsa keys with fewer than two primes observed; access: formats 0..22,99 × KeyValue shapes × material slot subsets (quick: none/all/single/all-but-one; thorough: all 256) × contents (every standard library blob kind, garbage, all 128 subsets of the optional RSA integers, curve/scalar/point/compression codes), hand-built and after transport in each encoding; reuse: one payload / object first with one content then with another (key block, key value, plain value, material slots, numbers replaced in place; a second message decoded into the same object or payload in each encoding; material removed at each level; format changed; returned keys overwritten by the caller) - every method without parameters of the payload, the object and its key block (found by reflection) must return what it returns on a new object with the same exported content, and must leave the exported content as it was; lexical: boundary and random big integers and mutated texts; distinct = distinct line",
 		Run:  keyRun,
 	})
 }
@@ -477,6 +478,8 @@ func keyReplay(env *keyEnv, l string) {
 				keyAccessCase(env, back, !strings.HasPrefix(l, "#"), enc.name, f[0])
 			}
 		}
+	case "key.reuse":
+		keyReuseReplay(env, arg)
 	case "key.retain":
 		// #key.retain <ver> <scenario>
 		if len(f) != 2 {
@@ -571,6 +574,8 @@ func keyRun(ctx *Ctx) {
 	keyRunLexPart(env)
 	t1 := time.Now()
 	keyRunAccessPart(env)
+	t1b := time.Now()
+	keyRunReusePart(env)
 	t2 := time.Now()
 	keyRunRtPart(env)
 	keyRunCustomPart(env)
@@ -579,7 +584,7 @@ func keyRun(ctx *Ctx) {
 	keyRegSweep(env)
 	t3 := time.Now()
 	keyRunRetainPart(env)
-	fmt.Fprintf(os.Stderr, "key: lex %.1fs access %.1fs rt %.1fs retain %.1fs\n", t1.Sub(t0).Seconds(), t2.Sub(t1).Seconds(), t3.Sub(t2).Seconds(), time.Since(t3).Seconds())
+	fmt.Fprintf(os.Stderr, "key: lex %.1fs access %.1fs reuse %.1fs rt %.1fs retain %.1fs\n", t1.Sub(t0).Seconds(), t1b.Sub(t1).Seconds(), t2.Sub(t1b).Seconds(), t3.Sub(t2).Seconds(), time.Since(t3).Seconds())
 }
 
 var _ = rng.New
